@@ -144,6 +144,39 @@ static size_t dep_nfkd(const char* str, polyseed_str norm) {
     return dep_norm_write(norm);
 }
 
+/* number of distinct objects of size n that were wiped as a whole (offset 0,
+ * length = object size; object size and offset come from CBMC's pointer model,
+ * natively only the length can be compared) through the injected memzero */
+static int dep_wipes_whole(size_t n) {
+    int c = 0;
+    for (int k = 0; k < L_mz_calls && k < DEP_MAX_MZ; ++k) {
+#ifndef REPLAY
+        if (L_mz[k].n == n && L_mz[k].objsize == n && L_mz[k].offset == 0) {
+#else
+        if (L_mz[k].n == n) {
+#endif
+            bool dup = false;
+            for (int j = 0; j < k; ++j) if (L_mz[j].p == L_mz[k].p && L_mz[j].n == n) dup = true;
+            if (!dup) c++;
+        }
+    }
+    return c;
+}
+
+/* C16 obligations regenerated from the goto symbol table (c16_gen.h): every
+ * automatic aggregate of >= 16 bytes declared in the API function (and in the
+ * library functions that run inside it in this harness) is wiped as a whole
+ * object; temporaries of the same size need as many distinct wipes          */
+#define C16_MIN_SIZE 16
+#define C16_CHECK(fn, msg) do { \
+    static const size_t obl_[] = C16_OBL_##fn; \
+    for (int a_ = 0; a_ < C16_N_##fn; ++a_) { \
+        if (obl_[a_] < C16_MIN_SIZE) continue; \
+        int need_ = 0; \
+        for (int b_ = 0; b_ < C16_N_##fn; ++b_) if (obl_[b_] == obl_[a_]) need_++; \
+        VASSERT(dep_wipes_whole(obl_[a_]) >= need_, msg); \
+    } } while (0)
+
 static const polyseed_dependency DEP_TABLE = {
     .randbytes = dep_randbytes, .pbkdf2_sha256 = dep_pbkdf2, .memzero = dep_memzero,
     .u8_nfc = dep_nfc, .u8_nfkd = dep_nfkd, .time = dep_time, .alloc = dep_alloc, .free = dep_free,
